@@ -4,7 +4,7 @@
    (Model/C13_CMAalg.v) of Props/C13.v.  E = executable model, A = algebraic model, S = published
    equations.  Proofs in Proofs/C13_CMArefine.v. *)
 From mathcomp Require Import all_ssreflect fingroup perm all_algebra.
-From DV Require Import Proofs.C13_CMArefine.
+From DV Require Import Proofs.C13_CMArefine Proofs.C13_CMAsort.
 Set Implicit Arguments.
 Unset Strict Implicit.
 Unset Printing Implicit Defensive.
@@ -97,3 +97,28 @@ Theorem C13_exec_init_refines :
         = A.init mu ln eighA (@argsortA_of R exp ln n) (rvL n centroid) sigma cmA (absK k)].
 Proof. exact: exec_init_refines. Qed.
 Print Assumptions C13_exec_init_refines.
+
+(* the insertion sort of the executable model is mathcomp's sort, for every total transitive order *)
+Theorem C13_sort_desc_is_sort :
+  forall (T : eqType) (leT : rel T), total leT -> transitive leT ->
+  forall s : seq T, E.sort_desc (fun x y => ~~ leT x y) s = sort leT s.
+Proof. exact: sort_descE. Qed.
+Print Assumptions C13_sort_desc_is_sort.
+
+(* END TO END: Strategy.update of the executable model on an unsorted evaluated population (fitness
+   tuples compared as CPython compares tuples) is the update of the algebraic model on the abstracted
+   population (keys in the lexicographic order on R-tuples) *)
+Theorem C13_exec_update_refines_alg :
+  forall (R : rcfType) (exp ln : R -> R) (n mu : nat)
+         (eighL : seq (seq R) -> seq R * seq (seq R)) (eighA : 'M_n -> 'rV_n * 'M_n)
+         (P : E.params) (st : E.state) (pop : seq (seq R * seq R)),
+    (forall C : seq (seq R), mshape n n C ->
+       [/\ size (eighL C).1 = n, mshape n n (eighL C).2
+         & eighA (mxL n n C) = (rvL n (eighL C).1, mxL n n (eighL C).2)]) ->
+    wfP n mu P -> wfS n st ->
+    (mu <= size pop)%N -> all (fun p : seq R * seq R => size p.2 == n) pop ->
+    let st' := E.update (RNum exp ln) eighL P st pop in
+    wfS n st' /\
+    absS n st' = A.update exp eighA (@argsortA_of R exp ln n) (absP mu P) (absS n st) (absPop n pop).
+Proof. exact: exec_update_refines_alg. Qed.
+Print Assumptions C13_exec_update_refines_alg.
